@@ -145,6 +145,15 @@ CLAIMS = {
              "is treated differently from the static case (known finding F1); the interp strings accepted by create are exactly those handled. "
              "Not decided: interpolated values, gradients.",
         ref="§5 C10"),
+    "C11": dict(
+        technique="argument provenance of the interpolation (value numbering of knots, query times and values per leaf and mode), affine normal form of the query shift, table agreement of the two linear modes' dummy masking, no-stop_gradient path check",
+        text="The interpolated values themselves (boundedness, continuity, gradient = finite-difference slope) are numerical and NOT decided. Decided, for both linear modes and "
+             "all four window leaves: jnp.interp is asked about the right arrays - knots xp = the delayed arrival times ts_sent + min + alpha (max - min) (dummy entries keep "
+             "their receive time; linear_real_only moves them to a constant far in the past, linear does not), the same array the arrival search uses; query times "
+             "x = Q - Q[-1] + ts_start with Q the window slice of the knots ending at the newest arrived message, so the newest query is exactly the step start; values fp = "
+             "the leaf itself (seq, ts_sent, delayed ts_recv, data), flat or flattened; one knot / query array for all leaves; alpha reaches the knots with no stop_gradient "
+             "on the way. Not decided: axis bookkeeping of the batched (vmap) interpolation, dtype restoration, spacing of older entries beyond being the knots' own.",
+        ref="§5 C11"),
     "C12": dict(
         technique="max-plus normal forms of the timestamp scan, ordering-abstraction tables of the assignment tie rule and horizon masks, key-membership guards of augment, exhaustiveness of the unsupported-setting rejections",
         text="Acyclicity and the sampled distributions are not decided. Decided: ts_start(0) = phase, ts_end = ts_start + sampled delay, ts_start(k+1) = "
@@ -201,9 +210,6 @@ CLAIMS = {
 }
 
 NOT_APPLICABLE = {
-    "C11": "every clause (interpolated value equals a piecewise-linear signal at a real-valued time, boundedness by neighbours, continuity, "
-           "gradient = finite-difference slope) is a numerical identity over array contents produced by jnp.interp / dynamic_slice / argwhere; "
-           "no sound static argument in reach bounds them (DESIGN.md §5 C11)",
 }
 
 
